@@ -965,7 +965,7 @@ def rand_xf(rng, t_ifaces=40, near_axis=0.4):
     if rng.random() < 0.3:
         x["reflect"] = True
     if rng.random() < 0.3:
-        x["scale"] = float(10 ** rng.uniform(-3, 3))
+        x["scale"] = float(10 ** rng.uniform(-5, 3))
     if rng.random() < 0.3:
         x["shift_rel"] = [float(v) for v in rng.uniform(-3, 3, 2)]
     elif rng.random() < 0.2:
